@@ -1,5 +1,6 @@
 """C12: history generator, CLI replay (paired cached / --no-sloc-cache runs) and model wire format."""
 import hashlib
+import shutil
 import json
 import os
 from vlib import *  # noqa
@@ -289,6 +290,32 @@ def symlink_history(rng, contents, tab, groups):
     return h
 
 
+def xlang_history(rng, contents, tab):
+    """A file that has a stored cache entry is renamed or copied (cp -p) to a name whose extension means another
+    language with other comment markers (built-in or custom), the content being one the two languages count
+    differently: the entry of the old path (same content hash) must not be reused for the new one."""
+    table = canon_langs(rng.choice([[], [], [(10, 100)], [(10, 101), (11, 102)], [(10, 103)], [(1, 100)], [(2, 103)]]))
+    tl = dict(table)
+
+    def lang(e):
+        return tl.get(e, e if 0 < e < 10 else None)
+    exts = [e for e in (1, 2, 3, 10, 11) if lang(e) is not None]
+    cands = [(e1, e2, cid) for e1 in exts for e2 in exts if e1 != e2 and lang(e1) != lang(e2)
+             for cid in range(1, len(contents) + 1) if tab.get((lang(e1), cid)) != tab.get((lang(e2), cid)) and tab.get((lang(e1), cid)) is not None]
+    if not cands:
+        return rand_history(rng, len(contents))
+    e1, e2, cid = rng.choice(cands)
+    t = T0 + rng.randrange(0, 1000)
+    src = (rng.choice(FILE_STEMS), e1)
+    dst = (rng.choice(FILE_STEMS), e2) if rng.random() < 0.5 else (src[0], e2)
+    xc = lambda: rng.choice(CMDS)
+    h = ([("L", table)] if table else []) + [("W", src, cid, t), ("X", xc(), [], t + rng.choice([1, 2, 100])),
+                                           (rng.choice(["R", "CP"]), src, dst), ("X", rng.choice(["check", "files", "summary"]), [], t + 200), ("X", xc(), [], t + 201)]
+    if rng.random() < 0.4:
+        h += [("CP", dst, (rng.choice(FILE_STEMS), e1)), ("X", xc(), [], t + 300)]
+    return h
+
+
 def cwd_history(rng, contents, tab, groups):
     """Runs from the project root and from a sub-directory against the same project cache, with files of equal name,
     mtime second and size in both places (./f1.rs seen from src/ or lib/ and from the root)."""
@@ -317,8 +344,8 @@ def norm_history(h):
             out.append(("W", tuple(o[1]), o[2], o[3]))
         elif k == "D":
             out.append(("D", tuple(o[1])))
-        elif k == "R":
-            out.append(("R", tuple(o[1]), tuple(o[2])))
+        elif k in ("R", "CP"):
+            out.append((k, tuple(o[1]), tuple(o[2])))
         elif k == "L":
             out.append(("L", [tuple(x) for x in o[1]]))
         elif k == "C":
@@ -402,6 +429,12 @@ def ops_wire(h):
             for l, q in links.items():
                 if q == o[2]:
                     out.append("P:%s:%s" % (wpath(o[2]), wpath(l)))
+        elif o[0] == "CP":                    # cp -p: content and mtime of o[1] under the name o[2] as well
+            if o[1] in links or o[1] not in live:
+                continue
+            links.pop(o[2], None)
+            live.add(o[2])
+            out.append("P:%s:%s" % (wpath(o[1]), wpath(o[2])))
         elif o[0] == "K":
             live.discard(o[1])
             links[o[1]] = o[2]
@@ -611,6 +644,13 @@ def replay_history(exe, contents, h, rng=None, threads="2", trunc_offsets=None):
                 if os.path.exists(a) and not os.path.islink(a):
                     os.makedirs(os.path.dirname(b), exist_ok=True)
                     os.rename(a, b)
+            elif o[0] == "CP":
+                a, b = os.path.join(sb.proj, real_path(o[1])), os.path.join(sb.proj, real_path(o[2]))
+                if os.path.exists(a) and not os.path.islink(a):
+                    os.makedirs(os.path.dirname(b), exist_ok=True)
+                    if os.path.lexists(b):
+                        os.remove(b)
+                    shutil.copy2(a, b)                      # keeps the mtime, like cp -p
             elif o[0] == "L":
                 langs = o[1]
                 sb.write(".sloc-guard.toml", config_text(langs))
